@@ -9,6 +9,7 @@
 (*   ml   (between the tokens of a rule object inside a multi-line annotation): blanks,       *)
 (*        tabs, line breaks                                                                   *)
 (*   il   (the same inside an inline annotation): blanks, tabs                                *)
+(*   ws   (between the tokens of a JSON document): white space only                           *)
 (*   en   (between the tokens of an enum rule): blanks, tabs, line breaks, // and /* */ comments *)
 (* The requirement (layer R): the filled text is accepted and means what the compact text    *)
 (* means - same AST (comments aside), same verdict on every probe document.                  *)
@@ -53,14 +54,21 @@ Schemas == <<
      Tk("\n", "out"), Tk("]", "out") >>,
   << Tk("{", ""), Tk("\n", "out"), Tk("\"a\"", "out"), Tk(":", "out"), Tk("1", "il"), Tk(",", "il"), Tk("//", ""), Tk("\n", "out"),
      Tk("\"b\"", "out"), Tk(":", "out"), Tk("2", "il"), Tk("//", "il"), Tk("{", "il"), Tk("optional", "il"), Tk(":", "il"), Tk("true", "il"), Tk("}", ""), Tk("\n", "out"), Tk("}", "out") >>,
+  \* DOCUMENTS (validated against the first schema above): white space between any two tokens, nothing else
+  << Tk("{", "ws"), Tk("\"a\"", "ws"), Tk(":", "ws"), Tk("1", "ws"), Tk(",", "ws"), Tk("\"b\"", "ws"), Tk(":", "ws"), Tk("[", "ws"), Tk("true", "ws"), Tk(",", "ws"), Tk("7", "ws"),
+     Tk("]", "ws"), Tk(",", "ws"), Tk("\"abc\"", "ws"), Tk(":", "ws"), Tk("\"s\"", "ws"), Tk("}", "ws") >>,
+  << Tk("{", "ws"), Tk("\"a\"", "ws"), Tk(":", "ws"), Tk("-1.5e2", "ws"), Tk(",", "ws"), Tk("\"b\"", "ws"), Tk(":", "ws"), Tk("[", "ws"), Tk("]", "ws"), Tk(",", "ws"),
+     Tk("\"zz\"", "ws"), Tk(":", "ws"), Tk("null", "ws"), Tk("}", "ws") >>,
   \* an enum RULE (rules/enum): its own scanner, its own comments
   << Tk("[", "en"), Tk("1", "en"), Tk(",", "en"), Tk("\"a\"", "en"), Tk(",", "en"), Tk("null", "en"), Tk(",", "en"), Tk("2.5", "en"), Tk("]", "en") >>
 >>
-IsEnum(i) == i = 13
+IsDoc(i) == i \in {13, 14}
+IsEnum(i) == i = 15
 Fillers(g) ==
   CASE g = "out" -> {" ", "\t", "\n", "\r\n", "\r", " # c\n", "#\n", " ### c ### ", "###\nc\n###\n", "  \n\n  "}
     [] g = "ml"  -> {" ", "\t", "\n", "\r\n", " \n\t"}
     [] g = "il"  -> {" ", "\t", "  \t"}
+    [] g = "ws"  -> {" ", "\t", "\n", "\r\n", "\r", " \n\t "}
     [] g = "en"  -> {" ", "\t", "\n", "\r\n", "\r", " // c\n", "//\n", " /* c */ ", "/*\nc\n*/", "\n\n  "}
     [] OTHER     -> {}
 \* what separates two tokens in the compact spelling (a blank where two tokens would otherwise run together)
@@ -79,5 +87,5 @@ Init == /\ sc \in DOMAIN Schemas
                                   fill = [NoFill(Schemas[sc]) EXCEPT ![i] = x, ![j] = y])
 Next == UNCHANGED <<sc, fill, nl>>
 Spec == Init /\ [][Next]_<<sc, fill, nl>>
-Emit == PrintT("@@CASE " \o ToJson([id |-> sc, kind |-> IF IsEnum(sc) THEN "enum" ELSE "schema", base |-> Build(Schemas[sc], NoFill(Schemas[sc]), 1), text |-> Build(Schemas[sc], fill, 1)]))
+Emit == PrintT("@@CASE " \o ToJson([id |-> sc, kind |-> IF IsEnum(sc) THEN "enum" ELSE IF IsDoc(sc) THEN "doc" ELSE "schema", base |-> Build(Schemas[sc], NoFill(Schemas[sc]), 1), text |-> Build(Schemas[sc], fill, 1)]))
 =================================================================================
